@@ -185,7 +185,14 @@ fn run_real(r: &Req) -> Obs {
             End::Ok { vars, rec: (e, l, s, f) }
         }
         Err(ScriptError::Runtime(msg, meta)) => {
+            // what an embedder PRINTS: `Source: <file|Unknown> Line: <n|Unknown> - <message>`, whatever the
+            // message looks like (a message may itself be a formatted error of a nested evaluation)
+            let shown = ScriptError::Runtime(msg.clone(), meta.clone()).to_string();
             let m = meta.unwrap_or_default();
+            let want = format!("Source: {} Line: {} - {}", m.source.clone().unwrap_or("Unknown".to_string()), m.line.map(|l| l.to_string()).unwrap_or("Unknown".to_string()), msg);
+            if shown != want {
+                return Obs { end: End::Other(format!("printed-error-differs:{}", enc_str(&shown))), log };
+            }
             End::Fail { msg: strip(&msg), line: m.line, source: m.source.map(|s| strip(&s)) }
         }
         Err(e) => End::Other(format!("PARSEERR {}", enc_script_error(&e))),
@@ -436,7 +443,9 @@ fn adversarial_msg(rng: &mut Rng, k: usize) -> String {
             // sometimes a very long report (longer than any plausible internal buffer)
             if rng.chance(1, 12) { format!("err{} {}", k, "long report line ".repeat(300 + rng.below(400))) } else { format!("err{}", k) }
         }
-        1 => rng.pick_s(&["${x}", "%{x}", "\\${x}", "a \"b\" c", "# not a comment", "x = y", "cr\rlf\nnl", "  lead and trail  ", "é漢😀", "", "${", "%{y} %{z}", "\"", "true", "false"]).to_string(),
+        1 => rng.pick_s(&["${x}", "%{x}", "\\${x}", "a \"b\" c", "# not a comment", "x = y", "cr\rlf\nnl", "  lead and trail  ", "é漢😀", "", "${", "%{y} %{z}", "\"", "true", "false",
+            // messages that are themselves formatted errors (what a nested evaluation reports)
+            "Source: Unknown Line: 1 - missing end quotes", "Source: lib.ds Line: 7 - boom", "Error: x", "Line: 3"]).to_string(),
         _ => pools::value(rng),
     }
 }
@@ -728,6 +737,12 @@ fn fixed() -> Vec<Case> {
     add("err", format!("{}\n{}\nprobe F true\nexit_on_error true\nprobe F false\nexit_on_error false\n{}\nprobe F yes\nexit_on_error yes\n{}", grp("c0", s), grp("c1", s), grp("c2", s), grp("c3", s)), vec![e("first"), e("second"), e("third"), e("fourth")], vec![], None, None);
     // after a goto
     add("err", format!("c0\n{}\n:a\n{}", grp("c1", s), grp("c2", s)), vec![format!("GL/-/{}", enc_str(":a")), e("after goto")], vec![], None, None);
+    // a FATAL error whose message is itself a formatted error (as a nested evaluation reports it): the
+    // printed form names THIS line in front of the message, from text and from a file
+    for m in ["Source: Unknown Line: 1 - missing end quotes", "Source: lib.ds Line: 7 - boom"] {
+        add("err", format!("# one\n\nprobe F true\nexit_on_error true\n{}", grp("c0", s)), vec![e(m)], vec![], None, None);
+        add("err", format!("probe F true\nexit_on_error true\n{}", grp("x = c1", so)), vec![e(m)], vec![], Some(MAIN), None);
+    }
     // from a file, with an included file whose instruction fails
     add("err", format!("{}\n!include_files inc.ds\n{}", grp("c0", s), grp("c1", s)), vec![e("main 1"), e("included"), e("main 2")], vec![], Some(MAIN), Some((INC, format!("# first line of the included file\n\n{}", grp("c2", s)))));
     // trigger_error / assert_error / set_error
